@@ -15,7 +15,7 @@ class Scenario:
 
     def __init__(self, tag, endpoints=None, accounts=None, certs=None, hooks=None, groups=None, global_opts=None,
                  rate_limits=None, attempts=1, cert_hooks=None, account_hooks=None, env=None, timeout=120,
-                 include=None, keep_world=None):
+                 include=None, keep_world=None, cfg_mutator=None, extra_files=None):
         self.tag = tag
         self.endpoints = endpoints or {"A": {}}
         self.accounts = accounts or [{"name": "acc1", "contacts": [{"mailto": "acc1@example.org"}]}]
@@ -30,6 +30,8 @@ class Scenario:
         self.env = env or {}
         self.timeout = timeout
         self.include = include
+        self.cfg_mutator = cfg_mutator
+        self.extra_files = extra_files
         self.world = keep_world
         self.cas = {}
 
@@ -79,7 +81,16 @@ class Scenario:
         return cfg
 
     def run(self, attempts=None, env=None, root_certs=(), umask=None):
-        self.world.write_config(self.config())
+        cfg = self.config()
+        if self.cfg_mutator:
+            cfg = self.cfg_mutator(cfg, self)
+        if isinstance(cfg, str):
+            g = "accounts_directory = %r\ncertificates_directory = %r\n" % (self.world.accounts, self.world.certs)
+            open(self.world.conf, "w").write(cfg.replace("@GLOBAL_DIRS@", g.replace("'", '"')).replace("@ROOT@", self.world.root))
+        else:
+            self.world.write_config(cfg)
+        for name, text in (self.extra_files or {}).items():
+            open(os.path.join(self.world.root, name), "w").write(text.replace("@ROOT@", self.world.root))
         e = dict(self.env)
         if env:
             e.update(env)
